@@ -66,6 +66,11 @@ type namePool struct {
 	// OwnParentCollider is a name under Parent whose hash shares its first two
 	// bytes with the hash of Parent itself.
 	OwnParentCollider string
+	// ZeroTail is a name under Parent whose hash ends in a zero byte: a decoder
+	// that stops at the first bad digit of a malformed string and keeps what it
+	// has decoded so far (the rest of the array staying zero) produces exactly
+	// this hash from a string that is not a hash.
+	ZeroTail string
 }
 
 var (
@@ -99,6 +104,13 @@ func findPool() namePool {
 		n := fmt.Sprintf("s%d.example.com", k)
 		if prefixHex(n) == avoid {
 			p.OwnParentCollider = n
+			break
+		}
+	}
+	for k := 0; ; k++ {
+		n := fmt.Sprintf("z%d.example.com", k)
+		if pf := prefixHex(n); strings.HasSuffix(hashHex(n), "00") && pf != avoid && pf != prefixHex(p.Host) {
+			p.ZeroTail = n
 			break
 		}
 	}
@@ -138,6 +150,28 @@ func eNonHexTail(n string) dbEntry {
 	return dbEntry{What: "hash(" + n + ") with the last digit replaced by 'z'", Str: string(h)}
 }
 
+// eNonHexFrom is the hash of n whose digits from position cut on are replaced
+// by 'z': 64 characters, a well-formed beginning and a tail that is not
+// hexadecimal.
+func eNonHexFrom(n string, cut int) dbEntry {
+	return dbEntry{What: fmt.Sprintf("hash(%s) with the digits from %d on replaced by 'z' (64 chars, not hex)", n, cut),
+		Str: hashHex(n)[:cut] + strings.Repeat("z", 64-cut)}
+}
+
+// nonHexCuts are the positions from which the tail of a malformed string is
+// garbage: the last byte, the last two, the last quarter, the second half,
+// everything after the 2-byte prefix.
+var nonHexCuts = []int{62, 60, 48, 32, 4}
+
+func eNonHexTails(names ...string) (es []dbEntry) {
+	for _, n := range names {
+		for _, cut := range nonHexCuts {
+			es = append(es, eNonHexFrom(n, cut))
+		}
+	}
+	return es
+}
+
 var eGarbage = dbEntry{What: "garbage returned for every question", Str: "v=spf1 -all", Always: true}
 
 func buildDBs(p namePool) []*dbSpec {
@@ -168,6 +202,8 @@ func buildDBs(p namePool) []*dbSpec {
 		db("lan-fifth-label", eHash(p.Lan5)),
 		db("lan-mid+long66", eLong66("d.lan"), eHash("c.d.lan")),
 		db("icann-suffix-com", eHash("com")),
+		db("zerotail-nonhex-tails", eNonHexTails(p.ZeroTail, p.Parent)...),
+		db("zerotail-nonhex-tails+collider", append(eNonHexTails(p.ZeroTail, p.Host), eHash(p.Collider))...),
 	}
 }
 
@@ -193,6 +229,10 @@ type scenario struct {
 	// NoCache: the configured cache time is zero, every entry is expired as
 	// soon as it is written.
 	NoCache bool
+	// Delisted: the scenario starts with a listed name that has been checked
+	// (Pre); the explored operations switch between the databases that list
+	// or do not list it and another hash under the same 2-byte prefix.
+	Delisted bool
 }
 
 func (sc *scenario) ttl() time.Duration {
@@ -204,7 +244,9 @@ func (sc *scenario) ttl() time.Duration {
 
 func (sc *scenario) ops(quick bool) (ops []op) {
 	names := []string{pool.Host, pool.Collider, pool.Child, pool.Parent, pool.Private6, pool.Lan5}
-	if len(sc.Pre) > 0 {
+	if sc.Delisted {
+		names = []string{pool.Host, pool.Collider, pool.Child}
+	} else if len(sc.Pre) > 0 {
 		names = []string{pool.Child, pool.Parent, pool.Host}
 	} else if sc.Switch {
 		names = []string{pool.Host, pool.Collider, pool.Child}
@@ -212,6 +254,11 @@ func (sc *scenario) ops(quick bool) (ops []op) {
 		names = append(names, pool.ParentCollider, pool.Other)
 	} else if strings.HasPrefix(sc.DB.Name, "parentcollider") {
 		names = []string{pool.Host, pool.Child, pool.Parent, pool.ParentCollider, pool.Private6, pool.Lan5}
+	} else if strings.HasPrefix(sc.DB.Name, "zerotail") {
+		names = []string{pool.Host, pool.Collider, pool.Child, pool.Parent, pool.ZeroTail, "www." + pool.ZeroTail}
+	}
+	if !quick && len(sc.Pre) == 0 && !sc.Switch && !strings.HasPrefix(sc.DB.Name, "zerotail") {
+		names = append(names, pool.ZeroTail)
 	}
 	if len(sc.Pre) == 0 && !sc.Switch && (sc.DB.Name == "parent" || sc.DB.Name == "empty" || !quick) {
 		names = append(names, pool.OwnParentCollider)
@@ -230,7 +277,11 @@ func (sc *scenario) ops(quick bool) (ops []op) {
 	if len(sc.Pre) == 0 && !sc.Switch && sc.Size == 0 {
 		ops = append(ops, op{Sc: sc.Label, Kind: "err"})
 	}
-	if len(sc.Pre) > 0 {
+	if sc.Delisted {
+		for _, d := range []string{"empty", "host", "collider", "host+collider"} {
+			ops = append(ops, op{Sc: sc.Label, Kind: "db", DB: d})
+		}
+	} else if len(sc.Pre) > 0 {
 		for _, d := range []string{"empty", "parent"} {
 			ops = append(ops, op{Sc: sc.Label, Kind: "db", DB: d})
 		}
@@ -277,6 +328,17 @@ func buildScenarios() (out []*scenario) {
 		out = append(out, &scenario{Label: l, Switch: true, DB: dbByKey["empty"], Pack: pk, Size: 0,
 			Pre: []op{{Sc: l, Kind: "chk", Name: pool.Parent}, {Sc: l, Kind: "db", DB: "parent"}}})
 	}
+	// A listed name has been checked (its hash is in the cache); the service
+	// may then drop it, list another hash under the same 2-byte prefix, or
+	// both: what is renewed after the expiry must be what the service says
+	// then, nothing of the expired entry.
+	for _, sz := range cacheSizes {
+		for _, pk := range []string{packSingle, packEach} {
+			l := fmt.Sprintf("switch-after-listed-check:pack=%s:cache=%d", pk, sz)
+			out = append(out, &scenario{Label: l, Switch: true, Delisted: true, DB: dbByKey["host"], Pack: pk, Size: sz,
+				Pre: []op{{Sc: l, Kind: "chk", Name: pool.Host}}})
+		}
+	}
 	return out
 }
 
@@ -289,6 +351,7 @@ func setup() {
 	roleOf = map[string]string{
 		pool.Host: "host", pool.Collider: "collider", pool.Parent: "parent", pool.Child: "child",
 		pool.ParentCollider: "parentcollider", pool.OwnParentCollider: "ownparentcollider", pool.Private6: "private6", pool.Lan5: "lan5", pool.Other: "other",
+		pool.ZeroTail: "zerotail", "www." + pool.ZeroTail: "zerotail-child",
 	}
 	allDBs = buildDBs(pool)
 	for _, d := range allDBs {
@@ -778,7 +841,8 @@ func hostGrammar(quick bool) (out []string) {
 		}
 	}
 	out = append(out, "uk", "ck", "1.2.3.4", "4.3.2.1.in-addr.arpa", "_dmarc.mail.example.com",
-		"xn--e1afmkfd.xn--p1ai", strings.Repeat("x", 63)+".example.com", "a.b.c.d.e.f.g.h", pool.Host, pool.Collider, pool.ParentCollider)
+		"xn--e1afmkfd.xn--p1ai", strings.Repeat("x", 63)+".example.com", "a.b.c.d.e.f.g.h", pool.Host, pool.Collider, pool.ParentCollider,
+		pool.ZeroTail, "www."+pool.ZeroTail, "a.b.c."+pool.ZeroTail)
 	return out
 }
 
@@ -802,7 +866,7 @@ func allSuffixNames(h string) (out []string) {
 
 func runStateless(c *lib.Ctx) {
 	hosts := hostGrammar(c.Quick())
-	c.Note("stateless_hosts", fmt.Sprintf("%d hosts: 0..7 labels of {a,www,secretlabel%s} before each of %d suffixes (ICANN, ICANN exception rule, 4-label ICANN, private, unmanaged TLD), 1..8 labels in total, plus 11 special names; each lower-case via Checker.Check and DNSFilter.CheckHost(safe browsing), upper-case via CheckHost(safe browsing), mixed-case via CheckHost(parental); CheckHost with question types A/AAAA/HTTPS/TXT/MX in rotation",
+	c.Note("stateless_hosts", fmt.Sprintf("%d hosts: 0..7 labels of {a,www,secretlabel%s} before each of %d suffixes (ICANN, ICANN exception rule, 4-label ICANN, private, unmanaged TLD), 1..8 labels in total, plus 14 special names (among them a name whose hash ends in a zero byte, alone and as a parent); each lower-case via Checker.Check and DNSFilter.CheckHost(safe browsing), upper-case via CheckHost(safe browsing), mixed-case via CheckHost(parental); CheckHost with question types A/AAAA/HTTPS/TXT/MX in rotation",
 		len(hosts), map[bool]string{true: "", false: ",b9,mail-x"}[c.Quick()], len(suffixes)))
 	for i, h := range hosts {
 		if !c.Mine(i) {
@@ -827,7 +891,8 @@ func runStateless(c *lib.Ctx) {
 				t := must[len(must)-1]
 				dbs = append(dbs,
 					dbSpec{Name: "malformed-only", Entries: []dbEntry{eLong66(t), eShort63(t), eLong65(t), eNonHex(t), eLong128(t, t)}},
-					dbSpec{Name: "malformed-then-hash", Entries: []dbEntry{eGarbage, eLong66(must[0]), eHash(t)}})
+					dbSpec{Name: "malformed-then-hash", Entries: []dbEntry{eGarbage, eLong66(must[0]), eHash(t)}},
+					dbSpec{Name: "nonhex-tails-of-every-decisive-name", Entries: eNonHexTails(must...)})
 			}
 			for di := range dbs {
 				cs := &slCase{Mode: "stateless", Host: v.host, Via: v.via, DB: dbs[di], Pack: []string{packSingle, packEach}[(i+vi+di)%2]}
@@ -876,7 +941,7 @@ func run(c *lib.Ctx) {
 	if !c.Quick() {
 		depthFixed, depthSwitch = 6, 6
 	}
-	c.Note("bfs_bounds", fmt.Sprintf("%d scenarios (25 databases x 2 answer packings x cache size {unlimited,%dB,%dB,30B} with a fixed database (the one database whose answers span two prefixes: unlimited cache only), 6 with database switches, 2 with database switches and a cache time of zero, 2 more that start after [check(parent); parent gets listed]); operations check(name) over the pool, advance clock by {1s, CacheTime-1s, CacheTime+1s}, the next exchange with the service fails (fixed database, unlimited cache), switch database (switch scenarios only); depth %d (fixed) / %d (switch)", len(labels), smallCache, tinyCache, depthFixed, depthSwitch))
+	c.Note("bfs_bounds", fmt.Sprintf("%d scenarios (27 databases x 2 answer packings x cache size {unlimited,%dB,%dB,30B} with a fixed database (the one database whose answers span two prefixes: unlimited cache only), 6 with database switches, 2 with database switches and a cache time of zero, 2 more that start after [check(parent); parent gets listed], 8 that start after [check(host) while listed] and switch between {empty, host, collider, host+collider}); operations check(name) over the pool, advance clock by {1s, CacheTime-1s, CacheTime+1s}, the next exchange with the service fails (fixed database, unlimited cache), switch database (switch scenarios only); depth %d (fixed) / %d (switch)", len(labels), smallCache, tinyCache, depthFixed, depthSwitch))
 	// Scenarios are dealt to shard processes; inside one scenario the BFS is
 	// single-threaded because the virtual clock is process-global.
 	shardI, shardN := c.ShardI, c.ShardN
